@@ -486,6 +486,18 @@ func emitCookie(e *emitter, p *pkg) {
 		}
 	}
 	e.boolean("cookieLoopDropsLeftover", drops)
+	// the HelloVerifyRequest that is sent: its composite literal (the cookie field must be the
+	// freshly generated cookie and nothing else)
+	hvrLit := ""
+	if len(lb) == 4 {
+		ast.Inspect(lb[2], func(n ast.Node) bool {
+			if cl, ok := n.(*ast.CompositeLit); ok && p.src(cl.Type) == "helloVerifyRequestMsg" {
+				hvrLit = p.src(cl)
+			}
+			return true
+		})
+	}
+	e.str("cookieLoopHvrLiteral", hvrLit)
 	e.str("cookieLoopHvrCond", hvrCond)
 	e.str("cookieLoopIssue", issue)
 	// direct calls up to and including the loop, in source order
